@@ -79,7 +79,7 @@ func TestVerifC25Cluster(t *testing.T) {
 			t.Fatal(err)
 		}
 		defer c[0].API.DeleteIndex(ctx, index)
-		if _, err := c[0].API.CreateField(ctx, index, "f", pilosa.OptFieldTypeSet(pilosa.CacheTypeNone, 0)); err != nil {
+		if _, err := vrcCreateField(c[0].API, index, "f", pilosa.OptFieldTypeSet(pilosa.CacheTypeNone, 0)); err != nil {
 			t.Fatal(err)
 		}
 		rowM := map[uint64]map[string]interface{}{}
